@@ -62,7 +62,7 @@ def known_map():
     return {i: k for i, k in m.items() if k.get("status", "known") == "known"}
 
 
-HANDLE_CTORS = {"Interned", "InternedSlice", "IStr", "IPath", "IString"}
+HANDLE_CTORS = {"Interned", "InternedSlice", "IStr", "IPath", "IString", "IW"}
 
 
 def unregistered_inside_registered(t, under=False):
